@@ -18,6 +18,17 @@ type callLog struct {
 	inflight int
 	maxIn    int
 	overflow bool
+	closed   bool // the API call under test has returned
+	late     int  // callbacks entered or still running after that
+}
+
+// close marks the return of the API call; callbacks seen afterwards are
+// evaluations that outlived the call.
+//
+//go:norace
+func (l *callLog) close() {
+	l.closed = true
+	l.late += l.inflight
 }
 
 func newCallLog(capacity int) *callLog {
@@ -26,6 +37,9 @@ func newCallLog(capacity int) *callLog {
 
 //go:norace
 func (l *callLog) enter(x float64) {
+	if l.closed {
+		l.late++
+	}
 	if l.n < len(l.args) {
 		l.args[l.n] = x
 		l.gs[l.n] = int32(simrt.GID())
@@ -46,7 +60,9 @@ func (l *callLog) leave() { l.inflight-- }
 func (l *callLog) count() int { return l.n }
 
 //go:norace
-func (l *callLog) reset() { l.n, l.inflight, l.maxIn, l.overflow = 0, 0, 0, false }
+func (l *callLog) reset() {
+	l.n, l.inflight, l.maxIn, l.overflow, l.closed, l.late = 0, 0, 0, false, false, 0
+}
 
 // sorted returns the recorded arguments in ascending order (bitwise order for
 // equal values; NaNs last).
